@@ -42,6 +42,11 @@ func (f *Flatten) Apply(inputs []tensor.Tensor) ([]tensor.Tensor, error) {
 	inputShape := inputs[0].Shape()
 	rank := len(inputShape)
 
+	// ONNX allows the axis to be in the range [-rank, rank].
+	if f.axis < -rank || f.axis > rank {
+		return nil, ops.ErrAxisOutOfRange(rank, rank+1, f.axis)
+	}
+
 	axis := f.axis
 	if axis < 0 {
 		axis = rank + axis
